@@ -462,6 +462,15 @@ def r_concat_offsets(c):
         | {e["$U"] for e in find(fd, "prim.Comparison($$x, '<', $U[$i])")}
     lows = {e["$L"] for e in find(fd, "prim.Variable($$n) - $L[$i]")} \
         | {e["$L"] for e in find(fd, "Variable($$n) - $L[$i]")}
+    if not lows:
+        # the index variable held in a local: any `<v> - L[i]` where v is bound to a
+        # Variable(...)
+        for e in find(fd, "$v - $L[$i]"):
+            if any(isinstance(a, ast.Assign) and any(
+                    isinstance(t, ast.Name) and t.id == e["$v"] for t in a.targets)
+                    and isinstance(a.value, ast.Call)
+                    and ast.unparse(a.value.func).endswith("Variable") for a in ast.walk(fd)):
+                lows.add(e["$L"])
     if len(ups) != 1 or len(lows) != 1:
         raise AnalysisError("anchor vanished: in map_concatenate, the list the output index "
                             "is compared with (`<`) and the list of offsets subtracted from "
